@@ -9,14 +9,32 @@
 package main
 
 import (
+	"encoding/hex"
 	"os"
 	"strings"
 	"sync"
+	"unicode/utf8"
 
 	"verifharness/fw"
 )
 
 func hx(s string) string { return fw.Hx(s) }
+
+// unhx decodes an op-line argument; ok=false for anything the Lean driver also
+// rejects (odd length, upper-case or non-hex digits, invalid UTF-8).
+func unhx(s string) (string, bool) {
+	if s == "-" {
+		return "", true
+	}
+	if s != strings.ToLower(s) {
+		return "", false
+	}
+	b, err := hex.DecodeString(s)
+	if err != nil || !utf8.Valid(b) {
+		return "", false
+	}
+	return string(b), true
+}
 
 func repoDir() string {
 	if r := os.Getenv("VERIF_REPO"); r != "" {
@@ -109,16 +127,18 @@ func exec(f []string) string {
 		return "ok " + itoa(len(c.L)) + " " + itoa(len(c.R))
 	case f[0] == "group" && len(f) == 3:
 		c := checks[f[1]]
-		if c == nil {
+		o, ok := unhx(f[2])
+		if c == nil || !ok {
 			return "bad-op"
 		}
-		return c.group(fw.Unhx(f[2]))
+		return c.group(o)
 	case f[0] == "fact" && len(f) == 3:
 		c := checks[f[1]]
-		if c == nil {
+		k, ok := unhx(f[2])
+		if c == nil || !ok {
 			return "bad-op"
 		}
-		return c.fact(fw.Unhx(f[2]))
+		return c.fact(k)
 	}
 	return "bad-op"
 }
@@ -135,9 +155,15 @@ func recheck(oracle string, ops, res []string) (bool, string) {
 			return true, "malformed op/result: " + op + " => " + res[i]
 		}
 		what := f[1]
+		show := func(h string) string {
+			if s, ok := unhx(h); ok {
+				return s
+			}
+			return h
+		}
 		name := func() string {
 			if len(f) >= 4 {
-				return f[2] + " " + fw.Unhx(f[3])
+				return f[2] + " " + show(f[3])
 			}
 			return f[2]
 		}
@@ -166,7 +192,7 @@ func recheck(oracle string, ops, res []string) (bool, string) {
 			case "differs":
 				d := name() + ": differs"
 				if len(r) == 4 {
-					d += ": " + fw.Unhx(r[2]) + "  |  " + fw.Unhx(r[3])
+					d += ": " + show(r[2]) + "  |  " + show(r[3])
 				} else if len(r) == 3 {
 					d += " in " + r[2] + " fact(s)"
 				}
